@@ -2,7 +2,10 @@
 
 PROVED (Coq, Props/C11.v): the orchestrator's failure containment with rules as partial functions - sibling
 isolation, exactness, what escapes the except table and what that costs, completeness of the H1 failure log, exit
-status, the parallel path, the store order of the two cross-file rules, language detection.  Tied to the code by the
+status, the parallel path, the store order of the two cross-file rules, language detection; the output stage
+(exit status 0/1 iff every formatter operation is defined on every field; SARIF region); analyzers with memory
+(functional abstraction exact iff history free; a stale memo breaks isolation); censuses of raising expressions,
+analyzer state and SyntaxError position attributes.  Tied to the code by the
 generated layer (ContainGen) and by the correspondence runs of c11_logic (injected partial rules through the real
 Orchestrator, detect_language, CPython's exception classes, the real DRY / stringly-typed rules with failing analyses).
 
@@ -746,7 +749,7 @@ def run(tier: str, seed: int, replay: str | None = None) -> int:
     chk = Check(PROP, tier, seed)
     _merge_known(chk)
     chk.rule = (
-        "three kinds of cases.  (1) stub scenarios [proof part, correspondence]: 1-4 injected partial rules (per file: report lines / raise one of 22 "
+        "five kinds of cases.  (1) stub scenarios [proof part, correspondence]: 1-4 injected partial rules (per file: report lines / raise one of 22 "
         "exception classes / remember evidence; finalize echoing or failing) x 1-6 files through the real Orchestrator.lint_files and the worker path "
         "of lint_files_parallel; non-trivial = some (rule,file) pair or finalize fails.  (2) detection [proof part]: generated file names (stems x "
         "upper/lower/odd extensions) x contents (shebang variants, BOM, CR, NUL, invalid UTF-8, random bytes), plus the small stream offenders; "
@@ -756,7 +759,16 @@ def run(tier: str, seed: int, replay: str | None = None) -> int:
         "recursion limit, placed at a random position among 9 healthy files (two of them twins with a cross-file duplicate) and linted in-process "
         "(default config / duplicate-code enabled; lint_files / lint_directory) and, for a subset, through each CLI command (--parallel for a fifth); "
         "non-trivial = the offender's own findings differ from a healthy file of its language, or it is not detected as a supported language, "
-        "or any oracle clause fired; distinct = distinct (file name, bytes)")
+        "or any oracle clause fired; distinct = distinct (file name, bytes).  The violations of EVERY stream run are also put through the real output stage "
+        "(format_violations inside run_linter_command) in every --format: exit status 0/1, well-formed text / json / sarif document (sarif: startLine, "
+        "startColumn integers >= 1), document fields equal to the objects'.  (4) carrier sweep [validated part, deterministic]: a healthy carrier of "
+        "cross-file material (stringly-typed comparisons / calls / membership test, a duplicate-code block, a module constant; below the cross-file "
+        "threshold on its own, live next to its copy: checked in every run) linted directly BEFORE and directly AFTER each kind of damaged file "
+        "(truncated, open string, bracket dropped / extra, NUL, undecodable, empty, whitespace) of each language, in-process (duplicate-code on) and, as one "
+        "sequence carrier/damaged/carrier/..., through every linter command x --format json, sarif (text for every fourth command; all in the thorough "
+        "tier): carriers' findings equal to the run without the damaged files in every format.  (5) output stage [proof part, correspondence]: 0-4 "
+        "Violation objects whose fields carry an int / None / str / enum member (a deterministic sweep field x foreign value x format, plus random ones) "
+        "through the real format_violations + run_linter_command against Model/ContainOut.v; non-trivial = some field has a type other than annotated")
     chk.trusted_base += [
         "PROVED PART: Model/Contain.v - rules are abstract partial functions (result per file, evidence per file, finalize); the three containment "
         "sites, their except tables, the finalize guard, the CLI error exit and the store order of DRY / stringly-typed come from Gen/ContainGen.v; "
@@ -766,6 +778,14 @@ def run(tier: str, seed: int, replay: str | None = None) -> int:
         "hook H1 (_verif_failure_tap in src/orchestrator/core.py) as the observer of swallowed exceptions; theorem C11_failure_log_complete shows the "
         "model's three containment sites log every swallowed failure, that the code has no fourth site is checked by the generated shape items",
         "the 'hang' clause is calibrated in every run: CPU time of the worker process only, compared with a reference workload (the healthy files alone, measured twice in the same worker) scaled by total size; hang = 100 x that (20 x..100 x is a note and never decides the exit status); a worker is killed after 100 CPU s; a CLI command may take 100 x the wall time of a reference CLI run of the same moment (at least 150 s)",
+        "OUTPUT STAGE: Model/ContainOut.v models Python values by type tag (int / None / str / enum member: bool, float and other objects are outside) and "
+        "json.dumps / str() / f-strings as total on them; which operation each formatter applies to each field comes from Gen/ContainOutGen.v "
+        "(output_uses: any unclassified syntactic context fails closed); that real rules only ever produce well-typed fields is VALIDATED (every stream "
+        "run is rendered in every format), not proved - except the position attributes of a caught SyntaxError, whose `or <int>` defaulting is a census "
+        "theorem (C11_syntax_error_fields_defaulted)",
+        "ANALYZER STATE: the containment model takes a rule as a function of the file; that the analyzers behind the rules carry nothing from one file "
+        "to the next is a census (Gen.state_sites: 104 assignment / mutation sites outside __init__, 68 covered by a reset, 36 audited BY HAND in "
+        "Proofs/ContainCensus.v) plus the carrier sweep - the audit is trusted, a new site breaks C11_state_census",
         "a failing finalize() is a modelled case (flag q_finalize_unguarded): the main theorems need no hypothesis about it; it is exercised with injected "
         "rules only - no file content making a real finalize() raise was found by the stream",
     ]
@@ -820,7 +840,7 @@ def run(tier: str, seed: int, replay: str | None = None) -> int:
         if not ok:
             chk.broken.append("Gate:coqchk rejected Props/C11.v: " + out[-300:])
     chk.extra_cov["proved_vs_validated"] = {
-        "proved": "containment logic, cross-file store order, language detection (Props/C11.v)",
+        "proved": "containment logic, cross-file store order, language detection, output stage (exit status vs field types), analyzers with memory, censuses (Props/C11.v)",
         "validated_only": "absence of crashes / hangs / swallowed failures / sibling interference for concrete byte strings (mutation stream, CLI runs)"}
     return chk.finish()
 
